@@ -691,7 +691,12 @@ pub fn progen(seed: u64) -> Program {
         // a call chain with fan-out: every level calls the next one `fan` times (inline expansion copies the
         // callee per call site; call-graph walks see fan^levels paths); optionally 16-bit values nest through it
         let levels = 1 + g.r.below(12);
-        let fan = 1 + g.r.below(if levels > 8 { 3 } else { 8 });
+        // the reference builder walks every path of the call graph (a known finding): keep fan^levels small
+        let mut maxfan = 8u64;
+        while maxfan > 1 && maxfan.pow(levels as u32) > 20_000 {
+            maxfan -= 1;
+        }
+        let fan = 1 + g.r.below(maxfan);
         let inl = if g.r.chance(1, 2) { "inline " } else { "" };
         out.push_str(&format!("{}void w{}() {{ acc++; }}\n", inl, levels));
         for i in (0..levels).rev() {
